@@ -36,6 +36,18 @@ def run():
     e1.run_harnesses(rep, "C05", src, specs_for(src, "C05"), jobs=8,
                      timeout=1500 if tier() == "quick" else 3600, replayer=e1.fs_replayer("faults", OPS))
     wrappers(rep)
+    # "the file is not counted as processed" / the rest of the script goes on: run_script
+    try:
+        import oblig
+        from obligations import C20_run
+        ctxr = oblig.Ctx()
+        oblig.install_battery(rep, ctxr, ["c20_battery"])
+        C20_run.add(rep, ctxr.lib)
+    except Exception as ex:   # noqa
+        from common import Obligation
+        o = Obligation("run_script", "E2 mirsym/z3")
+        o.verdict, o.detail = "inconclusive", str(ex)[:200]
+        rep.add(o)
     return rep
 
 
